@@ -130,6 +130,20 @@ def gen_slow_refresh_case(r, fns):
     return [f], evs
 
 
+def gen_tight_replace_case(r, fns):
+    """max_memory with room for exactly two values: one key is cached; a call for a second key is suspended in its body;
+    another call for that second key completes and stores; the first resumes and stores again (a pure replacement):
+    nothing may be evicted"""
+    gated = [f for f in fns if f["gates"] and f["mem"] and f["mem"] >= 64 and not f["cache_if"] and not f["inval_on"] and f["ret"] in (1, 3)]
+    if not gated:
+        return None
+    f = r.pick(gated)
+    ln = f["mem"] // 2 - 24 - r.below(3)
+    ev = lambda kind, x, v, tid: "E 0 %s %d %d %d ok %d %d 0 1" % (kind, f["idx"], x, tid, v, ln)
+    evs = [ev("call", 1, 1, 0), ev("callA", 2, 2, 3), ev("call", 2, 3, 1), "E 0 callB", ev("call", 1, 4, 0), ev("call", 2, 5, 0)]
+    return [f], evs
+
+
 def gen_async_case(r, fns):
     """a call suspended at an await point of its body; other operations meanwhile; resume or drop"""
     gated = [f for f in fns if f["gates"]]
@@ -390,7 +404,8 @@ def gen_bulk_inval_case(r, fns, prof):
 
 def gen_case(r, fns, prof, nev):
     if prof.get("async_susp"):
-        c = gen_slow_refresh_case(r, fns) if r.chance(1, 6) else None
+        k = r.below(12)
+        c = gen_slow_refresh_case(r, fns) if k < 2 else gen_tight_replace_case(r, fns) if k < 4 else None
         return c or gen_async_case(r, fns)
     if prof.get("async_cases") and r.chance(1, 8):
         c = gen_slow_refresh_case(r, fns) if r.chance(1, 2) else None
